@@ -48,7 +48,7 @@ func (propC06) ID() string { return "C06" }
 
 func (propC06) Cases(tier string) int {
 	if tier == "thorough" {
-		return 6000000
+		return 4000000
 	}
 	return 240000
 }
